@@ -197,9 +197,18 @@ def trace_version_reads(sess, scenarios):
     log = []
     active = threading.local()
 
+    elog = []
+
     def hook():
         if getattr(active, 'on', False):
             log.append(mdib._tr_lock.owner == threading.get_ident())  # noqa: SLF001
+
+    by_handle = mdib.entities.by_handle
+
+    def traced_by_handle(*a, **k):       # the handler's read of the context states (its working copies)
+        if getattr(active, 'on', False):
+            elog.append(mdib._tr_lock.owner == threading.get_ident())  # noqa: SLF001
+        return by_handle(*a, **k)
 
     class TracedMdib(cls):
         @property
@@ -216,12 +225,14 @@ def trace_version_reads(sess, scenarios):
         mdib._tr_lock = _OwnedLock(inner)  # noqa: SLF001
         mdib.__dict__['_verif_mdib_version'] = mdib.__dict__.pop('mdib_version')
         mdib.__class__ = TracedMdib
+        mdib.entities.by_handle = traced_by_handle
     res = []
     try:
         for name, start, op in scenarios:
             hist = History(sess, {'wf': True, 'lc2': False, 'loc0': None, 'start': start, 'ops': []})
             hist.run()
             del log[:]
+            del elog[:]
             sess.clock.tick = sess.clock_n
             sess.clock_n += 1
             active.on = True
@@ -229,10 +240,12 @@ def trace_version_reads(sess, scenarios):
                 r = hist.do_set_location(op[1], op[2]) if op[0] == 'loc' else hist.do_scs('direct', op[2])
             finally:
                 active.on = False
-            res.append((name + ('' if r == 'ok' else '-rejected'), sum(1 for x in log if x), sum(1 for x in log if not x)))
+            res.append((name + ('' if r == 'ok' else '-rejected'), sum(1 for x in log if x), sum(1 for x in log if not x),
+                        sum(1 for x in elog if x), sum(1 for x in elog if not x)))
     finally:
         with mdib.mdib_lock:
             mdib.__class__ = cls
+            del mdib.entities.by_handle
             mdib.__dict__['mdib_version'] = mdib.__dict__.pop('_verif_mdib_version')
             mdib._tr_lock = inner  # noqa: SLF001
         sess.provider.take_wire()
@@ -253,12 +266,15 @@ def translate(ctx):
             ('scs-illegal', [s100], ['scs', 'direct', [prop(100, 1, 'no')]]),
             ('set-location', [s102], ['loc', 3, None])]
     rows = trace_version_reads(_SESSION, scen)
-    body = ',\n   '.join(f'("{n}", {a}, {b})' for n, a, b in rows)
+    body = ',\n   '.join(f'("{n}", {a}, {b})' for n, a, b, _, _ in rows)
+    ebody = ',\n   '.join(f'("{n}", {c}, {d})' for n, _, _, c, d in rows)
     src = ('/-! generated by harness/props/c10.py (translate): reads of `mdib.mdib_version` by the thread that executes a context\n'
            'operation, between the call of the operation and its return: (scenario, reads while the thread holds\n'
            '`ProviderMdib._tr_lock`, reads while it does not) -/\n'
            'namespace Sdc.Generated.ContextLocks\n'
            f'def versionReads : List (String × Nat × Nat) :=\n  [{body}]\n'
+           '/-- calls of `mdib.entities.by_handle` (the working copies of the context states) by that thread, same format -/\n'
+           f'def entityReads : List (String × Nat × Nat) :=\n  [{ebody}]\n'
            'end Sdc.Generated.ContextLocks\n')
     core.write_if_changed(core.GENERATED + '/ContextLocks.lean', src)
     ctx.notes['version_reads'] = rows
@@ -278,6 +294,7 @@ class History:
         self.failures = []     # (signature, detail, op index)
         self.capture_errors = 0
         self.race_stats = []
+        self.line_op = []      # op index of every driver line after the set-up lines
         self.stats = []
         self.to_real = {}      # model id -> real handle
         self.to_model = {}
@@ -372,95 +389,125 @@ class History:
             self.lines.append('st ' + fmt_state(f))
             self.expected.append('ok')
         s.provider.take_wire()
-        wf = bool(case.get('wf', True))
+        self.wf = bool(case.get('wf', True))
         for idx in range(n_ops if next_op else len(case['ops'])):
             if next_op:
                 case['ops'].append(next_op())
             op = case['ops'][idx]
-            before = self.table()
-            v0 = mdib.mdib_version
-            s.clock.tick = s.clock_n
-            s.clock_n += 1
-            race = len(op) > 3 and op[3] == 'race'
-            if op[0] == 'loc':
-                loc, dh = op[1], op[2]
-                line = f'loc {loc} {"-" if dh is None else dh}'
-                call = lambda: self.do_set_location(loc, dh)  # noqa: E731
+            if len(op) > 3 and op[3] == 'race':
+                self.run_race(idx, op, op[4] if len(op) > 4 else None)
             else:
-                mode, props = op[1], op[2]
-                line = 'scs ' + ' '.join(fmt_state(p) for p in props)
-                call = lambda: self.do_scs('direct' if race else mode, props)  # noqa: E731
-            res = self.with_open_transaction(call) if race else call()
-            after = self.table()
-            self.intern_new(after)
-            v1 = mdib.mdib_version
-            wire = s.provider.take_wire()
-            answer = f'{res} ver={v1} fresh={self.fresh} | {self.dump(after)}'
-            if race:
-                # where did the other (metric) transaction commit relative to the operation?  The model gets the same order.
-                other = [w.mdib_version for w in wire if w.action.endswith('EpisodicMetricReport')]
-                mine = [w.mdib_version for w in wire if w.action.endswith('EpisodicContextReport')]
-                forced = not mine or (other and other[0] < mine[0])
-                self.race_stats.append('other-commit-first' if forced else 'operation-first')
-                if forced:
-                    self.lines += ['bump', line]
-                    self.expected += ['ok', answer]
-                    v0 = v1 - 1 if mine else v1       # the version the operation found when it got the transaction lock
-                else:
-                    self.lines += [line, 'bump']
-                    self.expected += [None, 'ok']
-                    v1 = mine[0]
-            else:
-                self.lines.append(line)
-                self.expected.append(answer)
-            if s.provider.capture_errors:     # schema validity of reports is C04's business: counted, not judged here
-                self.capture_errors += len(s.provider.capture_errors)
-                del s.provider.capture_errors[:]
-            self.stats.append((op[0], res, v1 - v0))
-            if wf:
-                self.oracle(idx, op, res, before, after, v0, v1, wire, float(BASE + s.clock.tick))
-            elif res != 'ok':
-                self.noop_clause(idx, 'set_location' if op[0] == 'loc' else 'SetContextState', res, before, after, v0, v1)
-            elif op[0] == 'loc' and res == 'ok' and v1 != v0:
-                # even from a corrupt table set_location leaves exactly one associated state
-                d = self.real(2 if op[2] is None else op[2])
-                n = sum(1 for sts in after.values() for st in sts if st.DescriptorHandle == d and is_assoc(st))
-                if n != 1:
-                    self.failures.append(('set_location:associated-count', f'{n} associated states of {d} after set_location', idx))
+                self.run_plain(idx, op)
         return self
 
-    def with_open_transaction(self, call):
-        """Run `call` in a second thread while this history's thread-A holds an open metric transaction: the operation has
-        to wait for the transaction lock, the metric transaction commits first (one MdibVersion), then the operation runs."""
-        import threading
-        mdib = self.s.mdib
-        entered, release = threading.Event(), threading.Event()
-        result = {}
+    # ---- one operation
+    def _tick(self):
+        s = self.s
+        s.clock.tick = s.clock_n
+        s.clock_n += 1
 
-        def other():
-            try:
-                with mdib.metric_state_transaction() as mgr:
-                    mgr.get_state(self.s.metric_handle)
-                    entered.set()
-                    release.wait(15)
-            except Exception as ex:  # noqa: BLE001
-                result['other'] = repr(ex)
-                entered.set()
+    def _prep(self, op, direct=False):
+        if op[0] == 'loc':
+            loc, dh = op[1], op[2]
+            return f'loc {loc} {"-" if dh is None else dh}', (lambda: self.do_set_location(loc, dh))
+        mode, props = op[1], op[2]
+        return ('scs ' + ' '.join(fmt_state(p) for p in props)), (lambda: self.do_scs('direct' if direct else mode, props))
+
+    def _finish(self, idx, op, line, res, before, v0):
+        """bookkeeping after an operation completed: answer line for the model, oracle on the step before -> now"""
+        s, mdib = self.s, self.s.mdib
+        after = self.table()
+        self.intern_new(after)
+        v1 = mdib.mdib_version
+        wire = s.provider.take_wire()
+        self.lines.append(line)
+        self.line_op.append(idx)
+        self.expected.append(f'{res} ver={v1} fresh={self.fresh} | {self.dump(after)}')
+        if s.provider.capture_errors:     # schema validity of reports is C04's business: counted, not judged here
+            self.capture_errors += len(s.provider.capture_errors)
+            del s.provider.capture_errors[:]
+        self.stats.append((op[0], res, v1 - v0))
+        if self.wf:
+            self.oracle(idx, op, res, before, after, v0, v1, wire, float(BASE + s.clock.tick))
+        elif res != 'ok':
+            self.noop_clause(idx, 'set_location' if op[0] == 'loc' else 'SetContextState', res, before, after, v0, v1)
+        elif op[0] == 'loc' and res == 'ok' and v1 != v0:
+            # even from a corrupt table set_location leaves exactly one associated state
+            d = self.real(2 if op[2] is None else op[2])
+            n = sum(1 for sts in after.values() for st in sts if st.DescriptorHandle == d and is_assoc(st))
+            if n != 1:
+                self.failures.append(('set_location:associated-count', f'{n} associated states of {d} after set_location', idx))
+
+    def run_plain(self, idx, op):
+        before, v0 = self.table(), self.s.mdib.mdib_version
+        self._tick()
+        line, call = self._prep(op)
+        self._finish(idx, op, line, call(), before, v0)
+
+    def run_other(self, idx, other):
+        """the second writer of a schedule scenario: a metric transaction (None) or a complete context operation"""
+        if other is None:
+            with self.s.mdib.metric_state_transaction() as mgr:
+                mgr.get_state(self.s.metric_handle)
+            self.lines.append('bump')
+            self.line_op.append(idx)
+            self.expected.append('ok')
+            self.s.provider.take_wire()
+        else:
+            self.run_plain(idx, other)
+
+    def run_race(self, idx, op, other):
+        """Forced two-writer schedule: the operation `op` runs in its own thread and is stopped at the moment it asks the
+        MDIB for its context state transaction (hook on `mdib.context_state_transaction`, i.e. after everything the operation
+        reads before it owns the transaction lock).  While it is parked, the other writer (`other`: None = a metric
+        transaction, else a set_location / SetContextState) runs to completion and commits; then the operation continues.
+        The observable behaviour has to be that of `other` followed by `op` (the model gets the two lines in that order); an
+        operation that returns without asking for a transaction (pre-check rejection, unchanged location) simply ran first."""
+        import threading
+        s, mdib = self.s, self.s.mdib
+        at_lock, go, progress = threading.Event(), threading.Event(), threading.Event()
+        result = {}
+        before, v0 = self.table(), mdib.mdib_version
+        s.clock.tick = s.clock_n          # the tick the operation sees if it completes before the other writer
+        line, call = self._prep(op, direct=True)
 
         def operation():
-            result['res'] = call()
-        ta = threading.Thread(target=other, name='verif-open-transaction')
+            try:
+                result['res'] = call()
+            finally:
+                progress.set()
         tb = threading.Thread(target=operation, name='verif-operation')
-        ta.start()
-        entered.wait(15)
-        tb.start()
-        real_time.sleep(0.2)      # the operation reaches `with mdib.context_state_transaction()` and blocks
-        release.set()
-        ta.join(20)
-        tb.join(20)
-        if 'other' in result or 'res' not in result:
-            raise RuntimeError(f'schedule scenario did not complete: {result}')
-        return result['res']
+        orig = mdib.context_state_transaction
+
+        def hooked(*a, **k):
+            if threading.current_thread() is tb and not at_lock.is_set():
+                at_lock.set()
+                progress.set()
+                go.wait(60)
+            return orig(*a, **k)
+        mdib.context_state_transaction = hooked
+        try:
+            tb.start()
+            progress.wait(60)
+            if at_lock.is_set():
+                self.race_stats.append('other-writer-first:' + ('metric' if other is None else other[0]))
+                self.run_other(idx, other)
+                before, v0 = self.table(), mdib.mdib_version
+                self._tick()
+                go.set()
+                tb.join(60)
+            else:
+                self.race_stats.append('operation-did-not-open-a-transaction')
+                s.clock_n += 1
+                tb.join(60)
+        finally:
+            go.set()
+            del mdib.context_state_transaction
+        if 'res' not in result:
+            raise RuntimeError('schedule scenario did not complete')
+        self._finish(idx, op, line, result['res'], before, v0)
+        if not at_lock.is_set():
+            self.run_other(idx, other)
 
     def do_set_location(self, loc, dh):
         try:
@@ -792,6 +839,36 @@ class Gen:
             props = []
         return ['scs', mode, props], shape
 
+    def two_writers(self):
+        """an operation and a second writer, mostly on the same descriptor and both association-changing"""
+        r = self.rng
+        rows = self.table_rows()
+        ctx = [1, 2, 3] + ([4] if self.lc2 else [])
+        if r.random() < 0.25:      # anything with anything
+            first = self.loc() if r.random() < 0.3 else self.scs()[0]
+            second = self.loc() if r.random() < 0.3 else self.scs()[0]
+            if first[0] == 'scs':
+                first[1] = 'direct'
+            if first[0] == 'loc' and second[0] == 'loc':
+                # two concurrent SdcProvider.set_location calls: `_location` is compared and stored before the transaction,
+                # outside any lock, so the stored location may end up as the one of the writer that committed first.  The
+                # table is still that of the two commits in order (checked in corpus 13 with a final metric writer), but the
+                # sequential model of `_location` is not exact for this pair: not generated.
+                second = self.scs()[0]
+            return first, second
+        d = r.choice(ctx + [2])
+        kinds = ['new-assoc', 'new-assoc', 'associate', 'disassociate', 'update']
+
+        def writer(allow_loc):
+            if allow_loc and d in (2, 4) and r.random() < 0.6:      # (never two set_location calls, see above)
+                return ['loc', r.randint(1, 6), d if (d == 4 or self.lc2 or r.random() < 0.3) else None]
+            props = [self.proposal(r.choice(kinds), rows, d)]
+            if r.random() < 0.3:
+                props.append(self.proposal(r.choice(kinds), rows, r.choice([x for x in ctx if x != d])))
+            return ['scs', 'direct', props]
+        first = writer(r.random() < 0.3)
+        return first, writer(first[0] != 'loc')
+
     def loc(self):
         r = self.rng
         dh = None
@@ -818,8 +895,13 @@ def gen_and_run(sess, rng, wire_ratio, n_ops):
             op, shape = gen.loc(), 'loc'
         else:
             op, shape = gen.scs()
-        if rng.random() < 0.03:      # schedule scenario: another transaction is open when the operation starts
-            op.append('race')
+        x = rng.random()
+        if x < 0.02:        # schedule scenario: a metric transaction commits while the operation waits for its transaction
+            op += ['race', None]
+        elif x < 0.07:      # two writers: a set_location / SetContextState commits while the operation waits
+            op, other = gen.two_writers()
+            shape = 'two-writers'
+            op += ['race', other]
         shapes.append(shape)
         return op
     hist.run(next_op, n_ops)
@@ -841,8 +923,8 @@ def _compare(ctx, hists):
         for k, (ln, exp, got) in enumerate(zip(h.lines, h.expected, got_all)):
             if exp is not None and got != exp:
                 nstart = 2 + len(h.case['start'])
-                nops = sum(1 for x in h.lines[nstart:k + 1] if x != 'bump')
-                case = dict(h.case, ops=h.case['ops'][:max(1, nops)])
+                nops = h.line_op[k - nstart] + 1 if k >= nstart else 1
+                case = dict(h.case, ops=h.case['ops'][:nops])
                 ctx.disagree('context_states table after ' + ln.split(' ')[0], {'case': case, 'line': ln}, got, exp)
                 break
 
